@@ -13,6 +13,8 @@ use vstd::std_specs::cmp::{PartialEqSpec, PartialEqSpecImpl, PartialOrdSpec, Par
 use vstd::std_specs::ops::*;
 verus! {
 
+global size_of usize == 8;   // 64-bit target (stated assumption)
+
 pub assume_specification<'a>[<String as core::convert::From<&'a str>>::from](s: &str) -> (r: String)
     ensures r@ == s@;
 
